@@ -55,7 +55,7 @@ def work(item):
         out['error'] = type(e).__name__
         return out
     try:
-        out['nw'] = nwchem_cases(b, rng)
+        out['nw'] = nwchem_cases(b, rng) + nwchem_ecp_cases(b, rng)
     except Exception as e:
         out['nw'] = [('harness-error', None, '%s: %s' % (type(e).__name__, e))]
     fmts = sorted(set(writers.get_writer_formats()) & set(readers.get_reader_formats()))
@@ -255,6 +255,93 @@ def nwchem_cases(b, rng):
         cases.append(('read:' + kind, dict(op='nwchem_read', lines=[nw_tok(l, True) for l in m]), nw_real_read(m)))
     return cases
 
+
+def nw_real_read_ecp(sec):
+    from basis_set_exchange.readers import nwchem as rnw
+    bs = {}
+    try:
+        rnw._parse_ecp_lines(list(sec), bs)
+    except Exception as e:
+        return ('err', type(e).__name__)
+    return ('ok', [[int(z), str(el.get('ecp_electrons', '')),
+                    [dict(am=p['angular_momentum'], rexp=[int(x) for x in p['r_exponents']], gexp=p['gaussian_exponents'], coef=p['coefficients'][0]) for p in el.get('ecp_potentials', [])]]
+                   for z, el in bs.items()])
+
+
+def nw_ecp_mutations(sec, rng):
+    out = []
+    n = len(sec)
+    for kind in ('drop_line', 'swap', 'no_nelec', 'two_nelec', 'nelec_last', 'ul_to_letter', 'letter_to_ul', 'four_tokens', 'float_rexp', 'lower', 'no_end', 'bad_sym', 'pot_without_rows'):
+        m = list(sec)
+        try:
+            heads = [i for i, l in enumerate(m) if l[0].isalpha() and i > 0 and l.lower() != 'end']
+            nel = [i for i in heads if 'nelec' in m[i].lower()]
+            pots = [i for i in heads if i not in nel]
+            rows = [i for i, l in enumerate(m) if not l[0].isalpha()]
+            if kind == 'drop_line':
+                del m[rng.randrange(n)]
+            elif kind == 'swap':
+                i, j = rng.randrange(n), rng.randrange(n); m[i], m[j] = m[j], m[i]
+            elif kind == 'no_nelec':
+                del m[rng.choice(nel)]
+            elif kind == 'two_nelec':
+                i = rng.choice(nel); m.insert(i, m[i])
+            elif kind == 'nelec_last':
+                i = rng.choice(nel); l = m.pop(i); m.insert(len(m) - 1, l)
+            elif kind == 'ul_to_letter':
+                i = [k for k in pots if m[k].split()[-1].lower() == 'ul'][0]; m[i] = m[i].split()[0] + ' ' + rng.choice(['S', 'G', 'Q'])
+            elif kind == 'letter_to_ul':
+                i = rng.choice([k for k in pots if m[k].split()[-1].lower() != 'ul']); m[i] = m[i].split()[0] + ' ul'
+            elif kind == 'four_tokens':
+                i = rng.choice(rows); m[i] = m[i] + ' 1.0'
+            elif kind == 'float_rexp':
+                i = rng.choice(rows); t = m[i].split(); t[0] = rng.choice(['1.0', 'x', '+2', '-1']); m[i] = ' '.join(t)
+            elif kind == 'lower':
+                m = [l.lower() for l in m]
+            elif kind == 'no_end':
+                m = [l for l in m if l.lower() != 'end']
+            elif kind == 'bad_sym':
+                i = rng.choice(heads); t = m[i].split(); t[0] = rng.choice(['Xx', 'H1', 'Qq']); m[i] = ' '.join(t)
+            elif kind == 'pot_without_rows':
+                i = rng.choice(pots); m.insert(i, m[i])
+        except (IndexError, ValueError):
+            continue
+        m = [l for l in m if l.strip()]
+        if m:
+            out.append((kind, m))
+    return out
+
+
+def nwchem_ecp_cases(b, rng):
+    from basis_set_exchange import writers, manip, sort
+    from basis_set_exchange.readers import helpers
+    if not any('ecp_potentials' in el for el in b['elements'].values()):
+        return []
+    if any(len(p['coefficients']) != 1 for el in b['elements'].values() for p in el.get('ecp_potentials', [])):
+        return []       # NWChem holds one coefficient column per potential; the model covers that case
+    try:
+        text = writers.write_formatted_basis_str(b, 'nwchem')
+    except Exception:
+        return []
+    lines = helpers.prune_lines(text.splitlines(), '#')
+    start = [i for i, l in enumerate(lines) if l.lower() == 'ecp']
+    if not start:
+        return []
+    rest = lines[start[0]:]
+    ends = [i for i, l in enumerate(rest) if l.lower() == 'end']
+    if not ends:
+        return []
+    sec = rest[:ends[0] + 1]
+    cases = []
+    els = [dict(z=int(z), nelec=str(el['ecp_electrons']),
+                pots=[dict(am=p['angular_momentum'][0], terms=[[str(r), g.strip(), c.strip()] for r, g, c in zip(p['r_exponents'], p['gaussian_exponents'], p['coefficients'][0])])
+                      for p in el['ecp_potentials']]) for z, el in b['elements'].items() if 'ecp_potentials' in el]
+    cases.append(('ecp-write', dict(op='nwchem_ecp_write', els=els), [nw_tok(l, False) for l in sec]))
+    cases.append(('ecp-read', dict(op='nwchem_ecp_read', lines=[nw_tok(l, True) for l in sec]), nw_real_read_ecp(sec)))
+    for kind, m in nw_ecp_mutations(sec, rng):
+        cases.append(('ecp-read:' + kind, dict(op='nwchem_ecp_read', lines=[nw_tok(l, True) for l in m]), nw_real_read_ecp(m)))
+    return cases
+
 def run(ctx):
     bse = import_bse()
     R = Result('C03')
@@ -306,8 +393,8 @@ def run(ctx):
             if 'drv_error' in a:
                 raise DriverError(a['drv_error'])
             R.ev()
-            if what == 'write':
-                R.count('nwchem-model:write')
+            if what in ('write', 'ecp-write'):
+                R.count('nwchem-model:' + what)
                 if a['lines'] != exp:
                     k = next((i for i, (x, y) in enumerate(zip(a['lines'], exp)) if x != y), min(len(a['lines']), len(exp)))
                     R.disagree('nwchem_write', dict(basis=label), str(a['lines'][k:k + 2])[:200], str(exp[k:k + 2])[:200], note='token lines of the electron section differ at line %d' % k)
@@ -315,6 +402,8 @@ def run(ctx):
                 nread += 1
                 R.count('nwchem-model:%s:%s' % (what, exp[0]))
                 got = ('ok', a['ok']) if 'ok' in a else ('err', a['raise'])
+                if what.startswith('ecp') and got[0] == 'ok':
+                    got = ('ok', [[z, n, [dict(p, rexp=[int(x) for x in p['rexp']]) for p in ps]] for z, n, ps in got[1]])
                 if got[0] != exp[0] or (got[0] == 'ok' and got[1] != exp[1]):
                     R.disagree('nwchem_read', dict(basis=label, stream=what), str(got)[:200], str(exp)[:200], note='reader model vs readers/nwchem.py on the same lines')
                 elif got[0] == 'ok':
